@@ -435,7 +435,8 @@ static void exec_op(RunState &rs, int i) {
 		randomx_vm *vm = rs.V[o.v];
 		const uint8_t *in = nullptr; size_t inlen = 0;
 		static const uint8_t empty = 0;
-		if (o.kind != LAST) { in = rs.inputb[o.input].empty() ? &empty : rs.inputb[o.input].data(); inlen = rs.inputb[o.input].size(); }
+		// an empty input is passed as a null pointer by every other op (randomx.h: input may be NULL if inputSize is 0)
+		if (o.kind != LAST) { in = rs.inputb[o.input].empty() ? ((i & 1) ? nullptr : &empty) : rs.inputb[o.input].data(); inlen = rs.inputb[o.input].size(); }
 		// the calling thread's MXCSR is whatever the previous library call on this thread left (the pipelined
 		// interface is documented as free to change it), unless the op carries an explicit environment
 		uint32_t &thread_csr = rs.thread_csr[task <= MAXTASK ? task : 0];
@@ -579,6 +580,7 @@ Report execute(const Plan &plan_in, const Options &opt) {
 	sc.replay = opt.replay || plan.replay; sc.script = plan.sched; sc.seed = rt::mix64(plan.seed, 0x5c4ed);
 	sc.p_num = plan.p_num; sc.p_den = plan.p_den; sc.park_site = plan.park_site; sc.park_num = plan.park_num; sc.park_den = plan.park_den;
 	rt::sched_configure(sc);
+	seam::set_warmup(opt.run_index == ~(uint64_t)0);
 	seam::run_begin(plan.heap_seed);
 
 	// group ops by phase
@@ -643,6 +645,7 @@ Report execute(const Plan &plan_in, const Options &opt) {
 	rep.events = rt::g_log.count;
 	if (opt.trace) rep.trace = rt::g_log.lines;
 	seam::run_end();
+	seam::set_warmup(false);
 	g_rs = nullptr;
 	return rep;
 }
@@ -661,8 +664,8 @@ std::string report_to_json(const Report &r, const Plan &plan, bool with_plan) {
 	snprintf(b, sizeof b, ",\"req\":[%llu,%llu,%llu,%llu],\"fired\":[%llu,%llu,%llu,%llu]", (unsigned long long)st.requests[0], (unsigned long long)st.requests[1], (unsigned long long)st.requests[2], (unsigned long long)st.requests[3],
 	         (unsigned long long)st.fired[0], (unsigned long long)st.fired[1], (unsigned long long)st.fired[2], (unsigned long long)st.fired[3]);
 	s += b;
-	snprintf(b, sizeof b, ",\"seam\":{\"frees\":%llu,\"munmaps\":%llu,\"mprotects\":%llu,\"reuse_big\":%llu,\"reuse_small\":%llu,\"fresh_big\":%llu,\"fresh_small\":%llu,\"stale\":%llu,\"rw_rx\":%llu,\"rwx_plain\":%llu,\"audits\":%llu}",
-	         (unsigned long long)st.frees, (unsigned long long)st.munmaps, (unsigned long long)st.mprotects, (unsigned long long)st.reuse_big, (unsigned long long)st.reuse_small, (unsigned long long)st.fresh_big,
+	snprintf(b, sizeof b, ",\"seam\":{\"frees\":%llu,\"munmaps\":%llu,\"mprotects\":%llu,\"reuse_big\":%llu,\"reuse_small\":%llu,\"reuse_tiny\":%llu,\"fresh_big\":%llu,\"fresh_small\":%llu,\"stale\":%llu,\"rw_rx\":%llu,\"rwx_plain\":%llu,\"audits\":%llu}",
+	         (unsigned long long)st.frees, (unsigned long long)st.munmaps, (unsigned long long)st.mprotects, (unsigned long long)st.reuse_big, (unsigned long long)st.reuse_small, (unsigned long long)st.reuse_tiny, (unsigned long long)st.fresh_big,
 	         (unsigned long long)st.fresh_small, (unsigned long long)st.stale, (unsigned long long)st.rw_rx_transitions, (unsigned long long)st.rwx_plain, (unsigned long long)st.maps_audits);
 	s += b;
 	s += ",\"probes\":{";
